@@ -785,6 +785,21 @@ func (c *evalCtx) specSort(name string) *Sort {
 
 func (c *evalCtx) call(x *ECall) Term {
 	w := c.w
+	// pkg.Type(e): parsed as a method-style call on the identifier pkg
+	if strings.HasPrefix(x.Fn, ".") && len(x.Args) == 2 {
+		if id, ok := x.Args[0].(*EIdent); ok {
+			if _, isVar := c.lookup(id.Name); !isVar {
+				if gt := c.resolveType(id.Name + x.Fn); gt != nil {
+					a := c.eval(x.Args[1])
+					to := w.sortOf(gt)
+					if a.Sort.Kind == KUntypedInt {
+						return c.coerce(a, to)
+					}
+					return w.convert(a, to)
+				}
+			}
+		}
+	}
 	switch x.Fn {
 	case "len", "cap":
 		if len(x.Args) != 1 {
@@ -858,6 +873,18 @@ func (c *evalCtx) call(x *ECall) Term {
 			c.fail("unknown type %q", s.V)
 		}
 		return Term{fmt.Sprintf("(= (i-dyn %s) %d)", a.S, w.typeID(gt)), sortBool}
+	case "asptr":
+		// asptr(e, "*T"): the pointer stored in interface value e (meaningful when istype(e, "*T"))
+		a := c.eval(x.Args[0])
+		st, ok := x.Args[1].(*EString)
+		if !ok || a.Sort.Kind != KIface {
+			c.fail("asptr(iface, \"*T\")")
+		}
+		gt := c.resolveType(st.V)
+		if gt == nil {
+			c.fail("unknown type %q", st.V)
+		}
+		return Term{fmt.Sprintf("(i-val %s)", a.S), w.sortOf(gt)}
 	case "real":
 		a := c.concrete(c.eval(x.Args[0]))
 		if a.Sort.Kind == KReal {
